@@ -44,6 +44,9 @@ CHECKS["C12"] = ("exploration", "E1", "bounded exhaustive enumeration of (functi
 CHECKS["C13"] = ("exploration", "E1", "bounded exhaustive enumeration of wholly known argument lists; differential comparison with reference implementations over plain Go slices and maps (Ok / DomainError / Unspecified)",
   "Each of the 27 collection, set and sequence functions x the full Cartesian product of its per-position seed alphabets (empty/non-empty collections, duplicates, null members, list/tuple and map/object forms, negative, fractional, huge and out-of-range indices, sizes and steps, null arguments where accepted): where the reference is specified the call must succeed with exactly the reference's value and type, and must fail exactly on arguments outside the documented domain.",
   "trusted: the reference functions of c13.go (written from descriptions and doc comments); Unspecified zones: element-type unification, order of sets of non-primitive members, huge indices, precision-boundary cases of range", "§3 C13/C14, §8")
+CHECKS["C14"] = ("exploration", "E1", "bounded exhaustive enumeration of wholly known argument lists; differential comparison with reference computations (exact rationals, float64 math, Go strings/regexp/fmt/encoding/time, grapheme-cluster splitter) answering Ok / DomainError / Unspecified",
+  "Each of the 49 number, string, regex, format, encoding, date, bool and bytes functions x the full Cartesian product of its per-position seed alphabets (numbers of all magnitude/precision classes, strings with multi-code-point clusters and normalising sequences, format strings over the documented verb grammar, RFC 3339 stamps and near-misses, durations, JSON and CSV documents): where the reference is specified the call must succeed with the reference's value and type (numeric results under the C02 precision rule, float64 results to 1e-9 relative), must fail exactly outside the documented domain, and decoding is the inverse of encoding.",
+  "trusted: the reference functions of c14.go, textseg as the definition of a grapheme cluster, Go fmt for numeric verbs; Unspecified zones listed in DESIGN appendix B and in the reference's rUnspec reasons", "§3 C13/C14, §8")
 NOT_YET = {}
 props = [json.loads(l) for l in open('/verif/properties.jsonl')]
 checks = []
